@@ -45,6 +45,10 @@ pub struct Plan {
     /// the background scan of the process table takes this long (real sleep at its first read)
     #[serde(default)]
     pub scan_delay_ms: i64,
+    /// fault in the background scan of the process table (see the shim): 0 none, 1 every command line
+    /// reads as empty, 2 every one except delta's and its parent's, 3 only the parent's, 4 ESRCH
+    #[serde(default)]
+    pub scan_cmdline: i64,
 }
 fn minus_one() -> i64 {
     -1
@@ -58,7 +62,7 @@ fn yes() -> bool {
 
 impl Plan {
     pub fn basic(seed: u64) -> Plan {
-        Plan { seed, clock: 1_700_000_000, rchunks: vec![], wplan: vec![], wfail_at: -1, wfail_errno: 32, wfail_sticky: true, sigint: String::new(), heap: false, rdelays_ms: vec![], scan_delay_ms: 0 }
+        Plan { seed, clock: 1_700_000_000, rchunks: vec![], wplan: vec![], wfail_at: -1, wfail_errno: 32, wfail_sticky: true, sigint: String::new(), heap: false, rdelays_ms: vec![], scan_delay_ms: 0, scan_cmdline: 0 }
     }
 }
 
@@ -306,6 +310,9 @@ pub fn run(env: &Env, spec: &RunSpec, dir: &Path, keep: bool) -> std::io::Result
     }
     if !p.rdelays_ms.is_empty() {
         plan.push_str(&format!("rdelays_ms {}\n", list_str(&p.rdelays_ms)));
+    }
+    if p.scan_cmdline > 0 {
+        plan.push_str(&format!("scan_cmdline {}\n", p.scan_cmdline));
     }
     if p.scan_delay_ms > 0 {
         plan.push_str(&format!("scan_delay_ms {}\n", p.scan_delay_ms));
